@@ -1,5 +1,5 @@
 SPEC = {
-    "lean_modules": ["AM.Props.C06", "AM.Props.C08"],
+    "lean_modules": ["AM.Props.C06", "AM.Props.C08", "AM.Props.Registry"],
     "theorems": [
         "AM.Route.route_key_spec",
         "AM.Cluster.sound_init", "AM.Cluster.sound_step", "AM.Cluster.sound_run",
@@ -7,6 +7,8 @@ SPEC = {
         "AM.Cluster.sent_congr", "AM.Cluster.slot_congr", "AM.Cluster.deliver_sets_slot", "AM.Cluster.healthy_step_refines",
         "AM.Cluster.quiet_after_record", "AM.Cluster.healthy_no_duplicate", "AM.Cluster.duplicate_without_gossip",
         "AM.Dedup.eligible_listed_or_recorded",
+        # the staggering by position: members that agree on the member list hold pairwise distinct positions (mesh engine)
+        "AM.Registry.position_lt_of_lt", "AM.Registry.positions_distinct", "AM.Registry.table_position_collides",
     ],
     "engines": [
         {"name": "cluster", "pkg": "./cluster", "timeout_quick": 90, "search_cases": 8000},
@@ -18,7 +20,7 @@ SPEC = {
         {"name": "route", "pkg": "./route", "search_cases": 20000, "quick_cases": 2500, "only": ["route_key_spec"]},
         # a (re)started instance must receive the cluster's notification log at join time: the application registers its
         # states before it joins (C19's engine: real memberlist; the order in app/app.go is read from the source)
-        {"name": "mesh", "pkg": "./mesh", "search_cases": 4, "timeout_quick": 400, "only": ["full_state_superset"]},
+        {"name": "mesh", "pkg": "./mesh", "search_cases": 4, "timeout_quick": 400, "only": ["full_state_superset", "positions_distinct"]},
         # the replicated notification log is what keeps later-positioned instances silent: an older entry must never replace a newer one (C10's engine)
         {"name": "nflog", "pkg": "./nflog", "search_cases": 8000, "quick_cases": 1200, "only": ["merge_monotone", "fold_merge_perm"]},
     ],
